@@ -1,4 +1,5 @@
 import BoxoModel.C26.Lemmas
+import BoxoModel.C26.TimeLemmas
 /-!
 # C26 — IPNS records round-trip through creation, encoding and validation
 
@@ -21,7 +22,6 @@ structure Laws (K : Keys) (C : Crypto) (encode : Node → Bytes) (decode : Bytes
   keyCodec : ∀ pk, C.parseKey (K.marshalKey pk) = some pk
   keyNonEmpty : ∀ pk, K.marshalKey pk ≠ []
   inline : ∀ pk, K.needEmbed pk = false → C.inlineKey (C.nameOf pk) = some pk
-  time : ∀ t, parseTime (formatTime t) = some t
 
 /-- an entry NewRecord must reject -/
 def BadEntry (e : String × MVal) : Prop :=
@@ -90,6 +90,7 @@ theorem c26_roundtrip (K : Keys) (C : Crypto) (encode : Node → Bytes) (decode 
     (sk : Nat) (value : Bytes) (seq : Nat) (eol : Int) (ttl : Int) (o : Opts) (sizeOf : Pb → Nat)
     (now : Int) (rawLen : Nat) (rec : Record)
     (hseq : seq < 2 ^ 64) (httl : ttl < 2 ^ 63) (hnow : now ≤ eol)
+    (htime : parseTime (formatTime eol) = some eol)
     (hkeys : (o.metadata.map (·.1)).Nodup)
     (hembed : o.embed = some false → K.needEmbed (K.pubOf sk) = false)
     (hnew : newRecord K encode sk value seq (formatTime eol) ttl o sizeOf = .ok rec)
@@ -130,7 +131,7 @@ theorem c26_roundtrip (K : Keys) (C : Crypto) (encode : Node → Bytes) (decode 
   have aT : C25.ttl rec = .ok (max 0 ttl) := by simp [C25.ttl, getInt, lT]
   have aVt : validityType rec = .ok 0 := by simp [validityType, getInt, lVt]
   have aVy : validity parseTime rec = .ok eol := by
-    simp [validity, aVt, getBytes, lVy, L.time]
+    simp [validity, aVt, getBytes, lVy, htime]
   have aV : getBytes rec "Value" = .ok value := by simp [getBytes, lV]
   have hun : unmarshal decode rawLen (some rec.pb) = .ok rec := by
     have h0 : ¬ rawLen > maxRecordSize := by omega
@@ -191,6 +192,33 @@ theorem c26_roundtrip (K : Keys) (C : Crypto) (encode : Node → Bytes) (decode 
     have hres' : ¬ e.1 ∈ reservedKeys := by simpa using hres
     have := look e.1 v (by simp [rawNode, h2])
     simp [metadata, hres', this]
+
+/-- RFC3339Nano: `time.Parse(RFC3339Nano, t.UTC().Format(RFC3339Nano)) = t` for every instant of the
+years 0001–9999, to the nanosecond — for the MODEL of format/parse in `BoxoModel/C26/Time.lean`
+(civil date from the day number, zero-padded fields, fraction with trailing zeros dropped; parser with
+Go's range checks), which the correspondence run compares byte for byte with Go's. -/
+theorem c26_time_law (t : Int) (h : C26.Time.InRange t) :
+    C26.Time.parseTime (C26.Time.formatTime t) = some t :=
+  C26.Time.parse_format t h
+
+/-- The round trip with the RFC3339 law DISCHARGED: formatting and parsing are the model's functions,
+the expiry is any instant from `now` to 9999-12-31T23:59:59.999999999Z. -/
+theorem c26_roundtrip_rfc3339 (K : Keys) (C : Crypto) (encode : Node → Bytes) (decode : Bytes → Option Node)
+    (L : Laws K C encode decode C26.Time.formatTime C26.Time.parseTime)
+    (sk : Nat) (value : Bytes) (seq : Nat) (eol : Int) (ttl : Int) (o : Opts) (sizeOf : Pb → Nat)
+    (now : Int) (rawLen : Nat) (rec : Record)
+    (hseq : seq < 2 ^ 64) (httl : ttl < 2 ^ 63) (hnow : now ≤ eol) (hrange : C26.Time.InRange eol)
+    (hkeys : (o.metadata.map (·.1)).Nodup)
+    (hembed : o.embed = some false → K.needEmbed (K.pubOf sk) = false)
+    (hnew : newRecord K encode sk value seq (C26.Time.formatTime eol) ttl o sizeOf = .ok rec)
+    (hsize : rec.pb.size ≤ maxRecordSize) (hraw : rawLen ≤ maxRecordSize) :
+    unmarshal decode rawLen (some rec.pb) = .ok rec ∧
+    validateWithName C decode C26.Time.parseTime now rec (C.nameOf (K.pubOf sk)) = .ok () ∧
+    sequence rec = .ok seq ∧ C25.ttl rec = .ok (max 0 ttl) ∧ validityType rec = .ok 0 ∧
+    validity C26.Time.parseTime rec = .ok eol ∧ getBytes rec "Value" = .ok value ∧
+    (∀ e ∈ o.metadata, ∃ v, anyToNode e.2 = .ok v ∧ metadata rec e.1 = some v) :=
+  c26_roundtrip K C encode decode C26.Time.formatTime C26.Time.parseTime L sk value seq eol ttl o sizeOf now rawLen rec
+    hseq httl hnow (c26_time_law eol hrange) hkeys hembed hnew hsize hraw
 
 /-- The CBOR map keys are emitted in DAG-CBOR order (by byte length, then bytewise), whatever the
 iteration order of the metadata map: the node is a permutation of the entries that is sorted. -/
